@@ -141,7 +141,10 @@ CHECKS = {
         'generated valid encodings, random strings; on the implementation: decoded => validates, re-encodes, '
         're-decodes equal; prefixes are errors; the schema-aware deserializer agrees on success and consumed length, into a '
         'target that keeps every field (universal serde target) and into one that keeps nothing (serde::de::IgnoredAny: Ok '
-        'there requires Ok and the same consumption from the generic decoder); extracted model = implementation on every case.',
+        'there requires Ok and the same consumption from the generic decoder), and into targets that ask for only every second '
+        'field of a top-level record (the kept fields must equal a full capture, the same bytes must be consumed); all strings of '
+        '3-4 length-like bytes for schemas with lengths nested in lengths; long valid encodings of collections of 63..2048 items; '
+        'extracted model = implementation on every case.',
    note='hypotheses: schema_wfb (distinct field names, <= 2^32 union branches, fixed decimals >= 1 byte: what the '
         'parser guarantees), allocation limit in [36, 2^63), element sizes >= 2, leaf_ok (excludes the zero-length '
         'decimal - now re-encodable after fix F36, numerically equal - and a big-decimal regrowing past the '
